@@ -544,6 +544,12 @@ func (g *pg) template() corev1.PodTemplateSpec {
 	case 2:
 		s.TerminationGracePeriodSeconds = g.i64p(1, 10, 600, 86400, 2147483647)
 	}
+	if g.p(25) {
+		// pod validation puts no upper bound on the grace period: an int64 that float64 cannot represent exactly. getPatch
+		// (here and upstream) goes through map[string]interface{}, so the recorded data rounds it. Such cases are judged by
+		// the monitors only (the Lean model's numbers are exact) and carry bigint=1 in the observation.
+		s.TerminationGracePeriodSeconds = g.i64p(9007199254740993, 9007199254740995, 1152921504606846977)
+	}
 	if g.p(10) {
 		s.ActiveDeadlineSeconds = g.i64p(1, 3600, 2147483647)
 	}
